@@ -201,8 +201,8 @@ def run(chk):
     chk.rule("R17.2", "transposition pairing at the seven local-axes sites; state cartesian in the parent frame first")
     chk.rule("R17.3", "half-open maneuver windows (exactly one strict bound)")
     chk.rule("R17.4", "orbit-attached frame wiring; maneuver constructors; dkep2dv identities")
-    r17_1(chk)
-    r17_2(chk)
-    r17_3(chk)
-    r17_4(chk)
+    chk.guard(r17_1, chk)
+    chk.guard(r17_2, chk)
+    chk.guard(r17_3, chk)
+    chk.guard(r17_4, chk)
     chk.assume("an orthonormal right-handed triad (u, (w×u), w) with u ⟂ w is a proper rotation; for TNW u = v̂ is ⟂ to w = (r×v)^ by construction, for QSW u = r̂ likewise")
